@@ -171,6 +171,8 @@ class PairRun:
                 pipe.run(case.get("schedule", ()))
             elif self.mode == "all":
                 pipe.run()
+            elif self.mode == "burst":
+                pipe.run_bytewise(self.mode_chunk() + 6, burst=5)
             else:
                 pipe.run_bytewise(self.mode_chunk())
             if self.c.count("open") != 1 or self.s.count("open") != 1:
@@ -200,6 +202,8 @@ class PairRun:
                 pipe.run(sched)
             elif self.mode == "all":
                 pipe.run()
+            elif self.mode == "burst":
+                pipe.run_bytewise(self.mode_chunk() + 6, burst=5)
             else:
                 pipe.run_bytewise(self.mode_chunk())
             d.advance(0.01)
@@ -309,7 +313,7 @@ def delivery_check(run, key_prefix):
             raise Violation(key_prefix + "|unexpected-drop", "side dropped the transport: %r" % (side.log[-3:],))
 
 
-def run_modes(case, key_prefix, modes=("drawn", "all", "bytewise"), extra=None, compress_params=None):
+def run_modes(case, key_prefix, modes=("drawn", "all", "bytewise", "burst"), extra=None, compress_params=None):
     """run the case under each schedule; check delivery, wire, and schedule-independence"""
     results = []
     for mode in modes:
@@ -357,6 +361,24 @@ def mask_policy(col, seed, n):
 
 
 def check_mask_policy(case):
+    # the library draws frame keys with random.getrandbits(32): inside this check the draw is replaced by a collision-free sequence, so that
+    # "two frames carry the same key" can only mean "no new key was drawn" (never a 2^-32 coincidence)
+    orig = random.getrandbits
+    ctr = [case.get("seed", 0) & 0xFFFF]
+
+    def distinct_bits(k):
+        if k != 32:
+            return orig(k)
+        ctr[0] += 1
+        return (ctr[0] * 2654435761) & 0xFFFFFFFF     # odd multiplier: a bijection on 32-bit values
+    random.getrandbits = distinct_bits
+    try:
+        _check_mask_policy(case)
+    finally:
+        random.getrandbits = orig
+
+
+def _check_mask_policy(case):
     r = PairRun(dict(case, copts={}, sopts={}), "all")
     try:
         r.run()
@@ -375,9 +397,12 @@ def check_mask_policy(case):
                 bad = [f.brief() for f in frames if not f.masked or f.mask is None or len(f.mask) != 4]
                 if bad:
                     raise Violation("C15|policy|client-frame-unmasked", "default options: %r" % bad[:3])
-                keys = set(f.mask for f in frames)
-                if len(frames) >= 8 and len(keys) == 1:
-                    raise Violation("C15|policy|client-key-reused", "%d frames all masked with key %s" % (len(frames), frames[0].mask.hex()))
+                seen = {}
+                for n_, f in enumerate(frames):
+                    if f.mask in seen:
+                        raise Violation("C15|policy|client-key-reused", "frames #%d (%s) and #%d (%s) of the client carry the same masking key %s" % (
+                            seen[f.mask], frames[seen[f.mask]].brief(), n_, f.brief(), f.mask.hex()))
+                    seen[f.mask] = n_
             else:
                 bad = [f.brief() for f in frames if f.masked]
                 if bad:
